@@ -6,6 +6,10 @@ ROOT = os.path.dirname(os.path.dirname(os.path.abspath(__file__)))
 
 # id -> (category, technique, text, note, design_ref)
 CHECKS = {
+ "C10": ("exploration", "Go race detector (-race build, reports parsed and de-duplicated by innermost library frame pair) over concurrent storms; transport-level overlapping-Write detector and broker-side framer",
+         "BaseClient and ReconnectClient storms (8-32 / 6-17 goroutines of every call kind, inbound traffic acknowledged by the reader goroutine, concurrent Close, keep-alive, cuts every few packets) plus the C07/C15/C20 workloads, all under the race detector, repeated with different seeds; any report not listed in known_findings.json is a violation; the transport flags overlapping Write calls and unframeable streams.",
+         "The race detector only sees code the workload reaches and reports on happens-before, not on the interleaving that happened; schedules are sampled. Evidence lists the pairs of call kinds observed overlapping.", "5/C10"),
+
  "C11": ("fault_enumeration", "full enumeration of (call kind, step, cause) with a stalling scripted peer; return/ctx-error/Done/goroutine-dump oracle with certified-stuck certificate",
          "Every blocking call kind at every step of its exchange (incl. both QoS 2 phases, the Retry handle of every interrupted request kind on a fresh client, and ReconnectClient.Connect while dialling / waiting CONNACK / backing off) crossed with every cause (pre-cancelled, cancel, deadline, local Close, peer close, malformed packet), alone and with three other calls blocked at once, and after a burst of unsolicited acknowledgements.",
          "Trusted: goroutine dump filtered to library reader frames (baseline-subtracted); watchdog expiry becomes a verdict only with the quiescence certificate.", "5/C11"),
